@@ -15,7 +15,7 @@ import numpy as np
 from ..core import import_library
 from ..gen import engines as E
 from ..gen import terms as G
-from ..probe import Probe, Reach
+from ..probe import Probe, Reach, plain_function
 from ..ref import norms as N
 from ..ref import wiring as W
 
@@ -177,7 +177,7 @@ def run(ctx):
         "distinct_nontrivial = distinct (consequent, degree, flags) with several conclusions of which an earlier one is hedged"
     )
     ctx.assumptions += ["hedges are applied nearest-the-term first, as the rule grammar (C06) states", "bit-exact comparison; hedge.hedge is the library's own (C05)"]
-    funcs = {"Consequent.modify": fl.Consequent.modify, "Consequent.load": fl.Consequent.load, "Rule.trigger": fl.Rule.trigger, "Activated.degree.setter": fl.Activated.__dict__["degree"].fset}
+    funcs = {"Consequent.modify": fl.Consequent.modify, "Consequent.load": fl.Consequent.load, "Rule.trigger": fl.Rule.trigger, "Activated.degree.setter": plain_function(fl.Activated, "degree")}
     with Reach(funcs) as reach, Probe() as probe:
         mon = ConsequentMonitor(ctx, fl)
         mon.install(probe)
